@@ -76,7 +76,6 @@ Proof.
   induction l as [|h r IH]; intros p; cbn [read_states]; [exact I|].
   apply allcalls_bind; [unfold opt_get_state; wka|]. intros [a e].
   destruct a as [[en|]|]; destruct e; try exact I; try apply IH.
-  destruct (classify env mrs en (assoc h (ov_states env))); try apply IH. exact I.
 Qed.
 Lemma nw_opt_sync env : allcalls W (opt_sync env).
 Proof.
@@ -85,7 +84,7 @@ Proof.
     destruct (mem_host _ _); [unfold repl_settings; wka|exact I]. }
   intros m. destruct (snd m); [exact I|]. unfold sync_with.
   apply allcalls_bind; [unfold dcs_children_; wka|]. intros hs. destruct (snd hs); [exact I|].
-  apply allcalls_bind; [apply nw_read_states|]. intros r. destruct r as [p|e|]; try exact I.
+  apply allcalls_bind; [apply nw_read_states|]. intros r. destruct r as [p|e]; try exact I.
   unfold sync_act. apply allcalls_bind.
   { unfold disable_nodes. destruct (op_optimized p ++ op_malf p) eqn:E; [exact I|]. rewrite <- E.
     apply allcalls_bind; [apply nw_stop_nodes|]. intros [x|]; [exact I|apply nw_delete_hosts]. }
